@@ -1,7 +1,7 @@
 (* C05 — Listed order, once per traversal; once per inner() call below a wrapper. *)
 From Coq Require Import List Arith Bool.
 Import ListNotations.
-From NJ Require Import Base Registry Classify Select Reorder Machine Spec Bind Refine Chain SpecLemmas.
+From NJ Require Import Base Registry Classify Select Reorder Machine Spec Bind Refine Chain SpecLemmas PreserveProofs.
 
 (* In the reference semantics, with every provider logging its id and wrapper p calling inner()
    ncalls p times: the log is the list order, each provider once per traversal, everything below a
@@ -47,3 +47,19 @@ Example C05_nonvacuous :
   = [1; 2; 3; 4; 3; 4].
 Proof. reflexivity. Qed.
 Print Assumptions C05_nonvacuous.
+
+(* Selection only marks: the list Bind's selection returns is the list it was given, entry by entry
+   (same provider, classification and flows); it never reorders, adds or drops an entry. *)
+Theorem C05_selection_keeps_the_list : forall te funcs1 funcs,
+  select te funcs1 = Ok funcs -> map p_s funcs = map p_s funcs1.
+Proof. exact select_preserves. Qed.
+Print Assumptions C05_selection_keeps_the_list.
+
+(* Hence, for a chain without Reorder, the final working list - whose included providers the
+   machine runs in that order - is the assembled list: static providers and literals in listed
+   order, then the per-invocation providers in listed order. *)
+Theorem C05_final_list_is_listed_order : forall c pl f0,
+  assemble c = Ok f0 -> existsb is_reorder f0 = false -> plan_of c = Ok pl ->
+  map p_s (pl_funcs pl) = map p_s f0.
+Proof. exact plan_keeps_assembled_order. Qed.
+Print Assumptions C05_final_list_is_listed_order.
